@@ -227,8 +227,10 @@ def uniform_dequantize(
       tensor_data, quantization_params
   )
   _is_valid_quantization_params(tensor_data, quantization_params)
+  # Subtract in a wide type: int8 data minus an int8 zero point overflows.
   return np.multiply(
-      tensor_data - quantization_params.zero_point, quantization_params.scale
+      tensor_data.astype(np.float64) - quantization_params.zero_point,
+      quantization_params.scale,
   )
 
 
